@@ -1,47 +1,617 @@
 /-
-  I (partial). unreliable RECEIVE channel, message-queue part: generated `ReceiveChannelUnreliable::{process_message,
-  receive_message}` (struct view without the `BTreeMap` slice tables) agree with `RecvUnrel.processMessage` /
-  `RecvUnrel.receive` of `Renet/Channels.lean`.  Headline statements in `Props/SrcTieRecvUnrel.lean`.
+  I. unreliable RECEIVE channel: generated `ReceiveChannelUnreliable::{new, process_message, process_slice,
+  discard_incomplete_old_slices, receive_message}` agree with `RecvUnrel` of `Renet/Channels.lean`.
+  The two `BTreeMap`s are key-sorted association lists on both sides (`RustSem.Map` / `SMap`).
+  Headline statements in `Props/SrcTieRecvUnrel.lean`.
 -/
 import RenetVerif.Generated.Src.RecvUnrel
 import RenetVerif.Lemmas.SrcEquiv.Prims
+import RenetVerif.Lemmas.SrcEquiv.CommonRepr
+import RenetVerif.Lemmas.SrcEquiv.Slice
 namespace RenetVerif.SrcEquiv
 open RenetVerif RenetVerif.RustSem
 
 section RecvUnrel
 open Src.renet.channel.unreliable
+abbrev SSliceCtor := Src.renet.channel.slice_constructor.SliceConstructor
 
-/-- the part of a model state the generated struct view contains -/
-def viewRU (r : RecvUnrel) : ReceiveChannelUnreliable := ⟨r.ch, r.messages.map toNats, r.maxMem, r.mem⟩
+/-! ### maps -/
+
+/-- strictly ascending keys -/
+def MSorted {α : Type} (m : SMap α) : Prop := (m.map (·.1)).Pairwise (· < ·)
+
+/-- model slice table ↦ generated `BTreeMap<u64, SliceConstructor>` (the constructor stores its key as `message_id`) -/
+def reprSlices (m : SMap SliceCtor) : RustSem.Map SSliceCtor := m.map fun p => (p.1, reprSC p.1 p.2)
+
+theorem find_reprSlices (m : SMap SliceCtor) (k : Nat) :
+    RustSem.Map.find? (reprSlices m) k = (SMap.find? m k).map (reprSC k) := by
+  induction m with
+  | nil => rfl
+  | cons p r ih =>
+    obtain ⟨k', v⟩ := p
+    simp only [reprSlices, List.map_cons, RustSem.Map.find?, SMap.find?] at ih ⊢
+    by_cases h : k' = k
+    · subst h; simp
+    · simp [h, ih]
+
+theorem contains_reprSlices (m : SMap SliceCtor) (k : Nat) :
+    RustSem.Map.contains_key (reprSlices m) k = SMap.contains m k := by
+  simp [RustSem.Map.contains_key, SMap.contains, find_reprSlices]
+
+theorem insert_reprSlices (m : SMap SliceCtor) (k : Nat) (c : SliceCtor) :
+    RustSem.Map.insert (reprSlices m) k (reprSC k c) = reprSlices (SMap.insert m k c) := by
+  induction m with
+  | nil => rfl
+  | cons p r ih =>
+    obtain ⟨k', v⟩ := p
+    simp only [reprSlices, List.map_cons, RustSem.Map.insert, SMap.insert] at ih ⊢
+    by_cases h1 : k < k'
+    · simp [h1]
+    · by_cases h2 : k = k'
+      · simp [h2]
+      · simp [h1, h2, ih]
+
+theorem remove_reprSlices (m : SMap SliceCtor) (k : Nat) :
+    RustSem.Map.remove (reprSlices m) k = reprSlices (SMap.erase m k) := by
+  induction m with
+  | nil => rfl
+  | cons p r ih =>
+    obtain ⟨k', v⟩ := p
+    simp only [reprSlices, List.map_cons, RustSem.Map.remove, SMap.erase] at ih ⊢
+    by_cases h : k' = k
+    · simp [h]
+    · simp [h, ih]
+
+theorem map_insert_eq {α : Type} (m : SMap α) (k : Nat) (v : α) : RustSem.Map.insert m k v = SMap.insert m k v := by
+  induction m with
+  | nil => rfl
+  | cons p r ih =>
+    obtain ⟨k', v'⟩ := p
+    simp only [RustSem.Map.insert, SMap.insert]
+    split
+    · rfl
+    · split
+      · rfl
+      · rw [ih]
+theorem map_remove_eq {α : Type} (m : SMap α) (k : Nat) : RustSem.Map.remove m k = SMap.erase m k := by
+  induction m with
+  | nil => rfl
+  | cons p r ih =>
+    obtain ⟨k', v'⟩ := p
+    simp only [RustSem.Map.remove, SMap.erase]
+    split
+    · rfl
+    · rw [ih]
+theorem map_find_eq {α : Type} (m : SMap α) (k : Nat) : RustSem.Map.find? m k = SMap.find? m k := by
+  induction m with
+  | nil => rfl
+  | cons p r ih =>
+    obtain ⟨k', v'⟩ := p
+    simp only [RustSem.Map.find?, SMap.find?]
+    split
+    · rfl
+    · rw [ih]
+
+/-- on a sorted map, re-inserting the value that is already bound does nothing -/
+theorem insert_same {α : Type} (m : SMap α) (k : Nat) (v : α) (hs : MSorted m) (hf : SMap.find? m k = some v) :
+    SMap.insert m k v = m := by
+  induction m with
+  | nil => cases hf
+  | cons p r ih =>
+    obtain ⟨k', v'⟩ := p
+    simp only [SMap.find?] at hf
+    simp only [MSorted, List.map_cons, List.pairwise_cons] at hs
+    simp only [SMap.insert]
+    by_cases h : k' = k
+    · subst h
+      rw [if_pos rfl] at hf
+      injection hf with hf; subst hf
+      simp
+    · rw [if_neg h] at hf
+      have hmem : k ∈ r.map (·.1) := by
+        clear ih hs
+        induction r with
+        | nil => cases hf
+        | cons q t ih2 =>
+          obtain ⟨k2, v2⟩ := q
+          simp only [SMap.find?] at hf
+          by_cases h2 : k2 = k
+          · simp [h2]
+          · rw [if_neg h2] at hf; simp [ih2 hf]
+      have hlt : k' < k := hs.1 k hmem
+      rw [if_neg (by omega), if_neg (by omega), ih hs.2 hf]
+
+theorem mem_keys_of_find {α : Type} {m : SMap α} {k : Nat} {v : α} (hf : SMap.find? m k = some v) : k ∈ m.map (·.1) := by
+  induction m with
+  | nil => cases hf
+  | cons q t ih =>
+    obtain ⟨k2, v2⟩ := q
+    simp only [SMap.find?] at hf
+    by_cases h2 : k2 = k
+    · simp [h2]
+    · rw [if_neg h2] at hf; simp [ih hf]
+
+/-- on a sorted map, replacing the value at a bound key and then removing the key is removing the key -/
+theorem erase_insert {α : Type} (m : SMap α) (k : Nat) (v w : α) (hs : MSorted m) (hf : SMap.find? m k = some w) :
+    SMap.erase (SMap.insert m k v) k = SMap.erase m k := by
+  induction m with
+  | nil => cases hf
+  | cons p r ih =>
+    obtain ⟨k', v'⟩ := p
+    simp only [SMap.find?] at hf
+    simp only [MSorted, List.map_cons, List.pairwise_cons] at hs
+    simp only [SMap.insert]
+    by_cases h : k' = k
+    · subst h
+      simp [SMap.erase]
+    · rw [if_neg h] at hf
+      have hlt : k' < k := hs.1 k (mem_keys_of_find hf)
+      rw [if_neg (by omega), if_neg (by omega)]
+      simp only [SMap.erase, if_neg h]
+      rw [ih hs.2 hf]
+
+theorem find_insert {α : Type} (m : SMap α) (k : Nat) (v : α) : SMap.find? (SMap.insert m k v) k = some v := by
+  induction m with
+  | nil => simp [SMap.insert, SMap.find?]
+  | cons p r ih =>
+    obtain ⟨k', v'⟩ := p
+    simp only [SMap.insert]
+    split
+    · simp [SMap.find?]
+    · split
+      · simp [SMap.find?]
+      · rename_i h1 h2
+        simp only [SMap.find?]
+        rw [if_neg (fun h => h2 h.symm), ih]
+
+theorem sorted_insert {α : Type} (m : SMap α) (k : Nat) (v : α) (hs : MSorted m) : MSorted (SMap.insert m k v) := by
+  induction m with
+  | nil => simp [MSorted, SMap.insert]
+  | cons p r ih =>
+    obtain ⟨k', v'⟩ := p
+    simp only [MSorted, List.map_cons, List.pairwise_cons] at hs
+    simp only [SMap.insert]
+    split
+    · rename_i h1
+      simp only [MSorted, List.map_cons, List.pairwise_cons]
+      refine ⟨?_, hs⟩
+      intro a ha
+      rcases List.mem_cons.mp ha with rfl | ha
+      · exact h1
+      · exact Nat.lt_trans h1 (hs.1 a ha)
+    · split
+      · rename_i h1 h2
+        subst h2
+        simpa [MSorted, List.pairwise_cons] using hs
+      · rename_i h1 h2
+        have hk : k' < k := by omega
+        have ih' := ih hs.2
+        simp only [MSorted, List.map_cons, List.pairwise_cons] at ih' ⊢
+        refine ⟨?_, ih'⟩
+        intro a ha
+        have : a = k ∨ a ∈ r.map (·.1) := by
+          clear ih ih' hs
+          induction r with
+          | nil => simp [SMap.insert] at ha; exact Or.inl ha
+          | cons q t ih3 =>
+            obtain ⟨k3, v3⟩ := q
+            simp only [SMap.insert] at ha
+            split at ha
+            · simp only [List.map_cons, List.mem_cons] at ha ⊢
+              rcases ha with h | h | h
+              · exact Or.inl h
+              · exact Or.inr (Or.inl h)
+              · exact Or.inr (Or.inr h)
+            · split at ha
+              · simp only [List.map_cons, List.mem_cons] at ha ⊢
+                rcases ha with h | h
+                · exact Or.inl h
+                · exact Or.inr (Or.inr h)
+              · simp only [List.map_cons, List.mem_cons] at ha ⊢
+                rcases ha with h | h
+                · exact Or.inr (Or.inl h)
+                · rcases ih3 h with h | h
+                  · exact Or.inl h
+                  · exact Or.inr (Or.inr h)
+        rcases this with rfl | h
+        · exact hk
+        · exact hs.1 a h
+
+/-- a completed message is not longer than the reserved `num_slices * SLICE_SIZE` -/
+theorem payload_len_le (c : SliceCtor) (idx : Nat) (bytes : Bytes) (c' : SliceCtor) (m : Bytes)
+    (hd : c.data.length ≤ c.numSlices * C.SLICE_SIZE) (h : c.processSlice idx bytes = .ok (c', some m)) :
+    m.length ≤ c.numSlices * C.SLICE_SIZE := by
+  have hset : ∀ (l : Bytes) (st : Nat) (src : Bytes) (site : String) (l' : Bytes),
+      (setRange l st src site : Res ChanErr Bytes) = .ok l' → l'.length = l.length := by
+    intro l st src site l' h
+    unfold setRange at h
+    split at h
+    · injection h with h; subst h
+      simp only [List.length_append, List.length_take, List.length_drop]; omega
+    · cases h
+  have hres : ∀ (l : Bytes) (n : Nat), (resize l n).length = n := by
+    intro l n; simp only [resize, List.length_append, List.length_take, List.length_replicate]; omega
+  unfold SliceCtor.processSlice at h
+  split at h
+  · cases h
+  rename_i h1
+  simp only at h
+  split at h
+  · cases h
+  rename_i h2
+  split at h
+  · cases h
+  rename_i h3
+  split at h
+  · cases h
+  rename_i got hg
+  cases got with
+  | true =>
+    simp only [if_true, Res.pure_eq, Res.bind_ok] at h
+    split at h
+    · injection h with h; injection h with _ h'; injection h' with h'; subst h'; exact hd
+    · cases h
+  | false =>
+    simp only [Bool.false_eq_true, if_false] at h
+    generalize hdat : (if (idx == c.numSlices - 1) = true then resize c.data ((c.numSlices - 1) * C.SLICE_SIZE + bytes.length) else c.data) = dat at h
+    cases hsr : (setRange dat (idx * C.SLICE_SIZE) bytes "slice_constructor.rs sliced_data[start..end].copy_from_slice" : Res ChanErr Bytes) with
+    | err e => rw [hsr] at h; cases h
+    | panic s => rw [hsr] at h; cases h
+    | ok d' =>
+      rw [hsr] at h
+      simp only [Res.bind_ok, Res.pure_eq] at h
+      have hl := hset _ _ _ _ _ hsr
+      split at h
+      · injection h with h; injection h with _ h'; injection h' with h'; subst h'
+        rw [hl, ← hdat]
+        split
+        · rename_i hlast
+          rw [hres]
+          have : bytes.length ≤ C.SLICE_SIZE := by
+            by_cases hb : bytes.length > C.SLICE_SIZE
+            · exact absurd ⟨hlast, hb⟩ h2
+            · omega
+          have hn : 1 ≤ c.numSlices := by omega
+          have : (c.numSlices - 1) * C.SLICE_SIZE + C.SLICE_SIZE = c.numSlices * C.SLICE_SIZE := by
+            rw [← Nat.succ_mul]; congr 1; omega
+          omega
+        · exact hd
+      · cases h
+
+/-! ### states -/
+
+def reprRU (r : RecvUnrel) : ReceiveChannelUnreliable :=
+  ⟨r.ch, r.messages.map toNats, reprSlices r.slices, r.lastReceived, r.maxMem, r.mem⟩
+
+theorem ru_new_eq {ε : Type} (ch maxMem : Nat) :
+    (ReceiveChannelUnreliable.new ch maxMem : Res ε _) = .ok (reprRU (RecvUnrel.new ch maxMem)) := rfl
 
 theorem process_message_eq {ε : Type} (r : RecvUnrel) (m : Bytes) (h : r.mem + m.length < 2 ^ 64) :
-    (ReceiveChannelUnreliable.process_message (viewRU r) (toNats m) : Res ε _) = .ok (viewRU (r.processMessage m), ()) := by
+    (ReceiveChannelUnreliable.process_message (reprRU r) (toNats m) : Res ε _) = .ok (reprRU (r.processMessage m), ()) := by
   unfold ReceiveChannelUnreliable.process_message RecvUnrel.processMessage
   have hl : RustSem.len (toNats m) = m.length := by simp [RustSem.len, toNats]
-  simp only [viewRU, hl, add_val h, Exec.bind_eq, Exec.bind_val', Exec.pure_eq]
+  simp only [reprRU, hl, add_val h, Exec.bind_eq, Exec.bind_val', Exec.pure_eq]
   by_cases hm : r.mem + m.length > r.maxMem
   · simp only [hm, decide_true, if_true, Exec.bind_ret', Exec.run_ret]
   · simp [hm, Exec.bind_val', Exec.run_val, RustSem.push, toNats]
 
-/-- `processMessage` leaves the slice tables alone -/
-theorem processMessage_tables (r : RecvUnrel) (m : Bytes) :
-    (r.processMessage m).slices = r.slices ∧ (r.processMessage m).lastReceived = r.lastReceived := by
-  unfold RecvUnrel.processMessage; split <;> exact ⟨rfl, rfl⟩
-
 theorem receive_message_eq {ε : Type} (r : RecvUnrel) :
-    (ReceiveChannelUnreliable.receive_message (viewRU r) : Res ε _) =
+    (ReceiveChannelUnreliable.receive_message (reprRU r) : Res ε _) =
       match r.receive with
-      | .ok (r', o) => .ok (viewRU r', o.map toNats)
+      | .ok (r', o) => .ok (reprRU r', o.map toNats)
       | .err e => nomatch e
       | .panic _ => .panic "renet/src/channel/unreliable.rs:ReceiveChannelUnreliable::receive_message: self.memory_usage_bytes -= message.len()" := by
   unfold ReceiveChannelUnreliable.receive_message RecvUnrel.receive
   cases hq : r.messages with
-  | nil => simp [viewRU, hq, Exec.bind_eq, Exec.bind_val', Exec.pure_eq, Exec.run_val]
+  | nil => simp [reprRU, hq, Exec.bind_eq, Exec.bind_val', Exec.pure_eq, Exec.run_val]
   | cons m rest =>
     have hl : RustSem.len (toNats m) = m.length := by simp [RustSem.len, toNats]
-    simp only [viewRU, hq, List.map_cons, List.head?_cons, List.tail_cons, hl, Exec.bind_eq, Exec.pure_eq, Res.csub]
+    simp only [reprRU, hq, List.map_cons, List.head?_cons, List.tail_cons, hl, Exec.bind_eq, Exec.pure_eq, Res.csub]
     by_cases hm : m.length ≤ r.mem
     · simp [hm, sub_val hm, Exec.bind_val', Exec.bind_ret', Exec.run_ret, toNats]
     · simp [hm, sub_panic hm, Exec.bind_panic', Exec.run_panic]
+
+/-! ### process_slice -/
+
+abbrev SRU := ReceiveChannelUnreliable
+
+/-- generated outcome predicted by the model outcome -/
+def ruOut : Res (ChanErr × RecvUnrel) RecvUnrel → Res (SChannelError × SRU) (SRU × Unit) :=
+  mapRes (fun r' => (reprRU r', ())) (fun e => (reprCE e.1, reprRU e.2))
+
+/-- side conditions on the constructor the slice belongs to -/
+structure CtorOk (c : SliceCtor) : Prop where
+  size : c.numSlices * C.SLICE_SIZE < 2 ^ 64
+  recv : c.numReceived + 1 < 2 ^ 64
+  data : c.data.length ≤ c.numSlices * C.SLICE_SIZE
+
+set_option maxRecDepth 10000 in
+/-- the slice's message already has a constructor -/
+theorem process_slice_has (r : RecvUnrel) (sl : Slice) (now : Nat) (c : SliceCtor)
+    (hf : SMap.find? r.slices sl.messageId = some c) (hs : MSorted r.slices) (hc : CtorOk c) (hmem : r.mem < 2 ^ 64) :
+    SameOutcome (ReceiveChannelUnreliable.process_slice (reprRU r) (reprSlice sl) now) (ruOut (r.processSlice sl now)) := by
+  have hcont : SMap.contains r.slices sl.messageId = true := by simp [SMap.contains, hf]
+  have hgf : RustSem.Map.find? (reprSlices r.slices) sl.messageId = some (reprSC sl.messageId c) := by
+    rw [find_reprSlices, hf]; rfl
+  unfold ReceiveChannelUnreliable.process_slice RecvUnrel.processSlice
+  simp only [reprRU, reprSlice, contains_reprSlices, hcont, Bool.not_true, Bool.false_eq_true, if_false, if_true, Exec.bind_eq,
+    Exec.pure_eq, Exec.bind_val', RustSem.Map.index, hgf, hf]
+  have hnum : (reprSC sl.messageId c).num_slices = c.numSlices := rfl
+  rw [hnum]
+  by_cases hne : c.numSlices ≠ sl.numSlices
+  · simp only [hne, ne_eq, not_false_eq_true, decide_true, if_true, Exec.bind_err', Exec.run_err, ruOut, mapRes,
+      SameOutcome, reprCE, reprRU]
+  have heq : c.numSlices = sl.numSlices := by simpa using hne
+  simp only [hne, decide_false, Bool.false_eq_true, if_false, Exec.bind_val']
+  -- the call into the slice constructor (group Slice)
+  have hsc := process_slice_eq sl.messageId c sl.sliceIndex sl.payload hc.size hc.recv
+  cases hm : c.processSlice sl.sliceIndex sl.payload with
+  | panic st =>
+    rw [hm] at hsc
+    cases hg : Src.renet.channel.slice_constructor.SliceConstructor.process_slice (reprSC sl.messageId c) sl.sliceIndex (toNats sl.payload) with
+    | ok x => rw [hg] at hsc; simp [mapRes, SameOutcome] at hsc
+    | err x => rw [hg] at hsc; simp [mapRes, SameOutcome] at hsc
+    | panic st' => simp only [Exec.callFrom_panic, Exec.bind_panic', Exec.run_panic, ruOut, mapRes, SameOutcome]
+  | err e =>
+    rw [hm] at hsc
+    cases hg : Src.renet.channel.slice_constructor.SliceConstructor.process_slice (reprSC sl.messageId c) sl.sliceIndex (toNats sl.payload) with
+    | ok x => rw [hg] at hsc; simp [mapRes, SameOutcome] at hsc
+    | panic x => rw [hg] at hsc; simp [mapRes, SameOutcome] at hsc
+    | err x =>
+      rw [hg] at hsc
+      simp only [mapRes, SameOutcome] at hsc
+      subst hsc
+      simp only [Exec.callFrom]
+      simp only [Exec.bind_err', Exec.run_err, ruOut, mapRes, SameOutcome, reprRU, insert_reprSlices,
+        insert_same _ _ _ hs hf]
+  | ok y =>
+    obtain ⟨c', o⟩ := y
+    rw [hm] at hsc
+    cases hg : Src.renet.channel.slice_constructor.SliceConstructor.process_slice (reprSC sl.messageId c) sl.sliceIndex (toNats sl.payload) with
+    | err x => rw [hg] at hsc; simp [mapRes, SameOutcome] at hsc
+    | panic x => rw [hg] at hsc; simp [mapRes, SameOutcome] at hsc
+    | ok x =>
+      rw [hg] at hsc
+      simp only [mapRes, SameOutcome] at hsc
+      subst hsc
+      simp only [Exec.callFrom_ok, Exec.bind_val']
+      cases o with
+      | none =>
+        simp only [Option.map_none, Exec.bind_val', Exec.run_val, ruOut, mapRes, SameOutcome, Res.pure_eq, reprRU,
+          insert_reprSlices, map_insert_eq r.lastReceived]
+      | some m =>
+        have hpl := payload_len_le c _ _ c' m hc.data hm
+        have hS : Src.renet.packet.SLICE_SIZE = C.SLICE_SIZE := rfl
+        have hmul : sl.numSlices * C.SLICE_SIZE < 2 ^ 64 := by rw [← heq]; exact hc.size
+        have hlen : RustSem.len (toNats m) = m.length := by simp [RustSem.len, toNats]
+        simp only [Option.map_some, hS, mul_val hmul, Exec.bind_val', hlen, Res.csub, heq]
+        by_cases hsub : sl.numSlices * C.SLICE_SIZE ≤ r.mem
+        · have hadd : r.mem - sl.numSlices * C.SLICE_SIZE + m.length < 2 ^ 64 := by rw [← heq]; rw [← heq] at hsub; omega
+          simp only [sub_val hsub, Exec.bind_val', add_val hadd, Exec.run_val, hsub, if_true, Res.bind_ok, Res.pure_eq, ruOut,
+            mapRes, SameOutcome, reprRU, insert_reprSlices, remove_reprSlices, erase_insert _ _ _ _ hs hf, map_remove_eq r.lastReceived,
+            RustSem.push, List.map_append, List.map_cons, List.map_nil]
+        · simp only [sub_panic hsub, Exec.bind_panic', Exec.run_panic, hsub, if_false, Res.bind_panic, ruOut, mapRes,
+            SameOutcome]
+
+/-- the state after memory has been reserved and a fresh constructor inserted -/
+def reserved (r : RecvUnrel) (sl : Slice) : RecvUnrel :=
+  { r with mem := r.mem + sl.numSlices * C.SLICE_SIZE,
+           slices := SMap.insert r.slices sl.messageId (SliceCtor.new sl.numSlices) }
+
+theorem ctorOk_new (n : Nat) (h : n * C.SLICE_SIZE < 2 ^ 64) : CtorOk (SliceCtor.new n) :=
+  ⟨h, by simp [SliceCtor.new], by simp [SliceCtor.new]⟩
+
+set_option maxRecDepth 10000 in
+theorem process_slice_eq_ru (r : RecvUnrel) (sl : Slice) (now : Nat) (hs : MSorted r.slices)
+    (hmem : r.mem + sl.numSlices * C.SLICE_SIZE < 2 ^ 64)
+    (hctor : ∀ c, SMap.find? r.slices sl.messageId = some c → CtorOk c) :
+    SameOutcome (ReceiveChannelUnreliable.process_slice (reprRU r) (reprSlice sl) now) (ruOut (r.processSlice sl now)) := by
+  cases hf : SMap.find? r.slices sl.messageId with
+  | some c => exact process_slice_has r sl now c hf hs (hctor c hf) (by omega)
+  | none =>
+    have hcont : SMap.contains r.slices sl.messageId = false := by simp [SMap.contains, hf]
+    have hS : Src.renet.packet.SLICE_SIZE = C.SLICE_SIZE := rfl
+    have hmul : sl.numSlices * C.SLICE_SIZE < 2 ^ 64 := by omega
+    by_cases hfit : r.mem + sl.numSlices * C.SLICE_SIZE > r.maxMem
+    · -- memory limited: dropped, state unchanged
+      unfold ReceiveChannelUnreliable.process_slice RecvUnrel.processSlice
+      simp only [reprRU, reprSlice, contains_reprSlices, hcont, Bool.not_false, if_true, Bool.false_eq_true, if_false, hS,
+        mul_val hmul, add_val hmem, Exec.bind_eq, Exec.pure_eq, Exec.bind_val', hfit, decide_true, Exec.bind_ret',
+        Exec.run_ret, ruOut, mapRes, SameOutcome]
+    · -- both sides continue as on the reserved state
+      have hgen : ReceiveChannelUnreliable.process_slice (reprRU r) (reprSlice sl) now
+          = ReceiveChannelUnreliable.process_slice (reprRU (reserved r sl)) (reprSlice sl) now := by
+        have hc1 : SMap.contains (SMap.insert r.slices sl.messageId (SliceCtor.new sl.numSlices)) sl.messageId = true := by
+          simp [SMap.contains, find_insert]
+        unfold ReceiveChannelUnreliable.process_slice
+        simp only [reprRU, reserved, reprSlice, contains_reprSlices, hcont, hc1, Bool.not_false, Bool.not_true, if_true,
+          Bool.false_eq_true, if_false, hS, mul_val hmul, add_val hmem, Exec.bind_eq, Exec.pure_eq, Exec.bind_val', hfit,
+          decide_false, sc_new_eq sl.messageId sl.numSlices hmul, Exec.call_ok, insert_reprSlices]
+      have hmod : r.processSlice sl now = (reserved r sl).processSlice sl now := by
+        have hc1 : SMap.contains (SMap.insert r.slices sl.messageId (SliceCtor.new sl.numSlices)) sl.messageId = true := by
+          simp [SMap.contains, find_insert]
+        unfold RecvUnrel.processSlice
+        simp only [hcont, Bool.false_eq_true, if_false, hfit, reserved, hc1, if_true]
+      rw [hgen, hmod]
+      refine process_slice_has (reserved r sl) sl now (SliceCtor.new sl.numSlices) (find_insert _ _ _)
+        (sorted_insert _ _ _ hs) (ctorOk_new _ hmul) ?_
+      simp only [reserved]; omega
+
+/-! ### discard_incomplete_old_slices -/
+
+/-- ids whose last slice is older than the limit (first loop) -/
+def lostIds (now : Nat) (l : SMap Nat) : List Nat :=
+  (l.filter (fun (p : Nat × Nat) => now - p.2 ≥ C.DISCARD_FRAGMENT_AFTER_NS)).map (·.1)
+
+theorem lost_loop {ε ρ : Type} (now : Nat) (body : Nat × Nat → List Nat → Exec ε ρ (List Nat))
+    (hb : ∀ k t acc, t ≤ now → body (k, t) acc = .val (if now - t ≥ C.DISCARD_FRAGMENT_AFTER_NS then acc ++ [k] else acc)) :
+    ∀ (l : SMap Nat) (acc : List Nat), (∀ p ∈ l, p.2 ≤ now) →
+      RustSem.forEach l acc body = .val (acc ++ lostIds now l) := by
+  intro l
+  induction l with
+  | nil => intro acc _; simp [RustSem.forEach, lostIds]
+  | cons p r ih =>
+    obtain ⟨k, t⟩ := p
+    intro acc h
+    have ht : t ≤ now := h (k, t) (by simp)
+    rw [RustSem.forEach, hb k t acc ht, Exec.bind_val', ih _ (fun q hq => h q (by simp [hq]))]
+    simp only [lostIds, List.filter_cons]
+    by_cases hd : now - t ≥ C.DISCARD_FRAGMENT_AFTER_NS
+    · simp [hd]
+    · simp [hd]
+
+/-- one round of the second loop -/
+def discardStep (id : Nat) (r : RecvUnrel) : Res Empty RecvUnrel :=
+  match SMap.find? r.slices id with
+  | none => .panic "unreliable.rs discarded slice should exist"
+  | some c => do
+    let mem ← Res.csub r.mem (c.numSlices * C.SLICE_SIZE) "unreliable.rs memory_usage_bytes -= num_slices * SLICE_SIZE (discard)"
+    pure { r with lastReceived := SMap.erase r.lastReceived id, slices := SMap.erase r.slices id, mem := mem }
+
+theorem discardLoop_cons (id : Nat) (rest : List Nat) (r : RecvUnrel) :
+    discardLoop (id :: rest) r = (discardStep id r >>= discardLoop rest) := by
+  rw [discardLoop]
+  unfold discardStep
+  cases SMap.find? r.slices id with
+  | none => rfl
+  | some c =>
+    simp only
+    cases (Res.csub r.mem (c.numSlices * C.SLICE_SIZE)
+      "unreliable.rs memory_usage_bytes -= num_slices * SLICE_SIZE (discard)" : Res Empty Nat) <;> rfl
+
+/-- agreement of a generated loop state with a model outcome (panic sites are not compared) -/
+def ExecSame {ε ρ : Type} : Exec ε ρ SRU → Res Empty RecvUnrel → Prop
+  | .val a, .ok b => a = reprRU b
+  | .panic _, .panic _ => True
+  | _, _ => False
+
+/-- every constructor in the table has a size that fits `usize` -/
+def SizesOk (r : RecvUnrel) : Prop := ∀ p ∈ r.slices, p.2.numSlices * C.SLICE_SIZE < 2 ^ 64
+
+theorem mem_of_find {α : Type} {m : SMap α} {k : Nat} {v : α} (h : SMap.find? m k = some v) : (k, v) ∈ m := by
+  induction m with
+  | nil => cases h
+  | cons p r ih =>
+    obtain ⟨k', v'⟩ := p
+    simp only [SMap.find?] at h
+    by_cases hk : k' = k
+    · rw [if_pos hk] at h; injection h with h; subst h; subst hk; simp
+    · rw [if_neg hk] at h; exact List.mem_cons_of_mem _ (ih h)
+
+theorem mem_erase {α : Type} {m : SMap α} {k : Nat} {p : Nat × α} (h : p ∈ SMap.erase m k) : p ∈ m := by
+  induction m with
+  | nil => cases h
+  | cons q r ih =>
+    obtain ⟨k', v'⟩ := q
+    simp only [SMap.erase] at h
+    split at h
+    · exact List.mem_cons_of_mem _ h
+    · rcases List.mem_cons.mp h with h | h
+      · rw [h]; simp
+      · exact List.mem_cons_of_mem _ (ih h)
+
+theorem discard_loop {ε ρ : Type} (body : Nat → SRU → Exec ε ρ SRU)
+    (hb : ∀ id r, SizesOk r → ExecSame (body id (reprRU r)) (discardStep id r)) :
+    ∀ (lost : List Nat) (r : RecvUnrel), SizesOk r →
+      ExecSame (RustSem.forEach lost (reprRU r) body) (discardLoop lost r) := by
+  intro lost
+  induction lost with
+  | nil => intro r _; simp [RustSem.forEach, discardLoop, ExecSame]
+  | cons id rest ih =>
+    intro r hr
+    rw [RustSem.forEach, discardLoop_cons]
+    have h1 := hb id r hr
+    cases hm : discardStep id r with
+    | err e => exact nomatch e
+    | panic s =>
+      rw [hm] at h1
+      cases hg : body id (reprRU r) with
+      | panic s' => simp [Exec.bind, ExecSame]
+      | val a => rw [hg] at h1; simp [ExecSame] at h1
+      | ret a => rw [hg] at h1; simp [ExecSame] at h1
+      | err a => rw [hg] at h1; simp [ExecSame] at h1
+    | ok r' =>
+      rw [hm] at h1
+      cases hg : body id (reprRU r) with
+      | panic s' => rw [hg] at h1; simp [ExecSame] at h1
+      | ret a => rw [hg] at h1; simp [ExecSame] at h1
+      | err a => rw [hg] at h1; simp [ExecSame] at h1
+      | val a =>
+        rw [hg] at h1
+        simp only [ExecSame] at h1
+        subst h1
+        simp only [Exec.bind_val', Res.bind_ok]
+        apply ih
+        -- sizes are preserved: the table only shrinks
+        unfold discardStep at hm
+        cases hfd : SMap.find? r.slices id with
+        | none => rw [hfd] at hm; cases hm
+        | some c =>
+          rw [hfd] at hm
+          simp only [Res.csub] at hm
+          split at hm
+          · simp only [Res.bind_ok, Res.pure_eq] at hm
+            injection hm with hm; subst hm
+            intro p hp
+            exact hr p (mem_erase hp)
+          · cases hm
+
+/-- outcome of `discard_incomplete_old_slices` predicted by the model (`Res Empty`: no `Err`) -/
+def discardOut {ε : Type} : Res Empty RecvUnrel → Res ε (SRU × Unit) → Prop
+  | .ok b, .ok a => a = (reprRU b, ())
+  | .panic _, .panic _ => True
+  | _, _ => False
+
+theorem discard_finish {ε : Type} (g : Exec ε (SRU × Unit) SRU) (m : Res Empty RecvUnrel) (h : ExecSame g m) :
+    discardOut m ((g.bind fun self => Exec.val (self, ())).run) := by
+  cases m with
+  | err e => exact nomatch e
+  | ok b =>
+    cases g with
+    | val a => simp only [ExecSame] at h; subst h; simp [Exec.bind, Exec.run, discardOut]
+    | ret a => simp [ExecSame] at h
+    | err a => simp [ExecSame] at h
+    | panic s => simp [ExecSame] at h
+  | panic s =>
+    cases g with
+    | panic s' => simp [Exec.bind, Exec.run, discardOut]
+    | val a => simp [ExecSame] at h
+    | ret a => simp [ExecSame] at h
+    | err a => simp [ExecSame] at h
+
+set_option maxRecDepth 10000 in
+theorem discard_eq {ε : Type} (r : RecvUnrel) (now : Nat) (hpast : ∀ p ∈ r.lastReceived, p.2 ≤ now) (hsz : SizesOk r) :
+    discardOut (r.discardOld now) (ReceiveChannelUnreliable.discard_incomplete_old_slices (reprRU r) now : Res ε _) := by
+  unfold ReceiveChannelUnreliable.discard_incomplete_old_slices RecvUnrel.discardOld
+  simp only [Exec.bind_eq, Exec.pure_eq]
+  have hlr : (reprRU r).slices_last_received = r.lastReceived := rfl
+  rw [hlr, lost_loop now _ ?hb r.lastReceived [] hpast]
+  case hb =>
+    intro k t acc ht
+    have hfs : RustSem.Duration.from_secs 3 = C.DISCARD_FRAGMENT_AFTER_NS := rfl
+    simp only [RustSem.Duration.sub, if_pos ht, Exec.bind_val', RustSem.push, hfs]
+    by_cases hd : now - t ≥ C.DISCARD_FRAGMENT_AFTER_NS
+    · simp [hd]
+    · simp [hd]
+  simp only [Exec.bind_val', List.nil_append]
+  have hlost : (r.lastReceived.filter (fun x => match x with | (_, t) => decide (now - t ≥ C.DISCARD_FRAGMENT_AFTER_NS))).map (·.1)
+      = lostIds now r.lastReceived := by
+    unfold lostIds; congr 2
+  rw [hlost]
+  apply discard_finish
+  refine discard_loop _ ?hb2 (lostIds now r.lastReceived) r hsz
+  intro id r' hr'
+  unfold discardStep
+  simp only [reprRU, map_remove_eq r'.lastReceived, find_reprSlices, remove_reprSlices]
+  cases hfd : SMap.find? r'.slices id with
+  | none => simp [RustSem.unwrap, Exec.bind, ExecSame]
+  | some c =>
+    have hsz' : c.numSlices * C.SLICE_SIZE < 2 ^ 64 := hr' (id, c) (mem_of_find hfd)
+    have hS : Src.renet.packet.SLICE_SIZE = C.SLICE_SIZE := rfl
+    have hn : (reprSC id c).num_slices = c.numSlices := rfl
+    simp only [Option.map_some, RustSem.unwrap, Exec.bind_val', hn, hS, mul_val hsz', Res.csub]
+    by_cases hsub : c.numSlices * C.SLICE_SIZE ≤ r'.mem
+    · simp [sub_val hsub, Exec.bind_val', hsub, ExecSame, reprRU]
+    · simp [sub_panic hsub, Exec.bind_panic', hsub, ExecSame]
 end RecvUnrel
 end RenetVerif.SrcEquiv
